@@ -19,7 +19,9 @@ EXPLANATION = (
     "that a rejected mutation changes nothing. Letters are atoms compared only by equality, so k letters cover every "
     "equality pattern of sets with <= k distinct letters. Exhaustive within the alphabet bound. "
     "Also: the right operand holding its own (shorter) Dimension objects for shared letters, lists whose clashing element comes last, "
-    "replace by a name that contains another dimension's letter, every lookup style exercised on the operands beforehand.")
+    "replace by a name that contains another dimension's letter, every lookup style exercised on the operands beforehand."
+    ' The unary producers and the mutators are evaluated a second time with dimensions that all carry one name.'
+)
 
 MOD = "dimensions.py"
 
